@@ -417,7 +417,7 @@ func r01_6(c *RC) {
 	rq := p.Field(protoPkg, "Session", "recvQueue")
 	for _, s := range p.FieldMethodCalls(rq, "Insert") {
 		key := "recvQueue-producer@" + fnName(s.Fn)
-		switch s.Fn.Name() {
+		switch ownerName(p, s.Fn) {
 		case "inputData", "moveRecvBufToRecvQueue":
 			c.OK(key, s.Pos(), "fed by the session's input goroutine only")
 		default:
